@@ -1,0 +1,5 @@
+//go:build !verif
+
+package io
+
+func verifAt(side, point int, id int32, ctr *int32) {}
